@@ -6,7 +6,7 @@ PATCH="$(readlink -f "$1")"; shift
 WT="$(mktemp -d /tmp/seedtest_XXXXXX)"
 rmdir "$WT"
 git -C /repo worktree add -q "$WT" HEAD || exit 2
-cp /repo/abacusnbody/version.py "$WT/abacusnbody/"
+cp /repo/abacusnbody/version.py "$WT/abacusnbody/"; cp -r /repo/abacusutils.egg-info "$WT/" 2>/dev/null
 if ! git -C "$WT" apply "$PATCH"; then echo "patch does not apply"; git -C /repo worktree remove --force "$WT"; exit 2; fi
 cd /verif
 for pid in "$@"; do
